@@ -23,12 +23,12 @@ pub fn check() -> Check {
         floor_quick: 3_000,
         floor_thorough: 50_000,
         rule: "Fault enumeration: for every scenario of a corpus (typing and editing, recall, completion, Enter with handler output, every kind of parse error, help / help <cmd> / nested help in plain and grouped command sets, Cli::write, set_prompt, multi-byte quoting, construction) \
-               a clean run counts the sink calls N; then EVERY call index k < N is failed once and, separately, permanently (2N runs per scenario), after which the sink is repaired and each of four suffixes ending in Enter (one of them recalling history) is typed. Proptest-generated sessions with a random k extend the corpus. \
+               a clean run counts the sink calls N; then EVERY call index k < N is failed once and, separately, permanently (2N runs per scenario), after which the sink is repaired - at once, or only after 1-3 further input bytes have arrived (the outage may end inside a key's encoding) - and each of five suffixes ending in Enter (one recalling history, one starting with a multi-byte character) is typed. Proptest-generated sessions with a random k extend the corpus. \
                Oracle: no panic; the API call during which the sink raised SinkErr(k) returns Err(SinkErr(k')) with k' raised in that call, and calls during which nothing was raised return Ok; the edited line (hook) is the line before the call, the clean-run line after it, or empty, and well-formed UTF-8; \
                the suffix behaves like an ideal editor on the observed line, a recall in it shows only a line the user submitted, and its Enter dispatches exactly the reference tokens of that line. \
                Non-trivial = the failure lands inside handler output, help output, error output, a redraw or a completion echo and is not the first sink call of that API call; distinct by (scenario, k, mode).",
         assumptions: &[
-            "single failure points (one call failed once, or all calls from k on until repair), not arbitrary failure patterns",
+            "single failure points (one call failed once, or all calls from k on until repair, the repair coming right after the failing call or up to 3-4 input bytes later), not arbitrary failure patterns",
             "what the terminal shows after a failed write is left open; only the returned error, the edited line and later dispatches are judged",
             "the scenario stops at the first API call that returns an error; the sink is then repaired",
         ],
@@ -196,6 +196,7 @@ fn suffixes() -> Vec<Vec<Op>> {
         vec![Op::Backspace, Op::Char('é'), Op::Left, Op::Char('b'), Op::Enter],
         vec![Op::Left, Op::Left, Op::Char(' '), Op::Right, Op::Char('"'), Op::Enter, Op::Char('z'), Op::Enter],
         vec![Op::Up, Op::Enter, Op::Up, Op::Up, Op::Char('q'), Op::Enter, Op::Down, Op::Enter],
+        vec![Op::Char('₿'), Op::Left, Op::Char('é'), Op::Enter],
     ]
 }
 
@@ -282,63 +283,131 @@ fn lossy(b: &[u8]) -> String {
     String::from_utf8_lossy(b).to_string()
 }
 
-fn run_suffix<S: CmdSet>(s: &mut Sess<S>, cfg: &Config, suffix: &[Op], typed_lines: &[Vec<u8>]) -> Result<(), Fail> {
+/// The input typed after the failure. The first `outage` bytes are typed while the sink is down again (an outage may end in
+/// the middle of a key's encoding); from then on the sink works. Keys are what the reference decoder makes of the bytes.
+fn run_suffix<S: CmdSet>(s: &mut Sess<S>, cfg: &Config, suffix: &[Op], typed_lines: &[Vec<u8>], outage: usize, st: &std::rc::Rc<std::cell::RefCell<vmodel::sink::SinkState>>) -> Result<(), Fail> {
+    use vmodel::refs::{Key, RefDecoder};
     let mut typed_lines: Vec<Vec<u8>> = typed_lines.to_vec();
-    let ev = s.editor();
-    let text = ev.text().ok_or_else(|| ("line is well-formed UTF-8 after the failure".to_string(), format!("{:02x?}", ev.bytes)))?.to_string();
-    let mut m = RefEditor::new(cfg.cmd_buf);
-    if ev.cursor > text.chars().count() {
-        return Err(("cursor within the line".into(), format!("cursor {} on {:?}", ev.cursor, text)));
+    let mut bytes = Vec::new();
+    let mut last = s.last_byte;
+    for op in suffix {
+        for b in op.encode(cfg, last) {
+            last = Some(b);
+            bytes.push(b);
+        }
     }
-    m.set_with_cursor(&text, ev.cursor);
-    for (i, op) in suffix.iter().enumerate() {
-        let what = format!("after the failure, with the sink repaired, suffix op #{} {:?}", i, op);
+    let seat = |s: &Sess<S>, m: &mut RefEditor, what: &str| -> Result<(), Fail> {
+        let ev = s.editor();
+        let text = ev.text().ok_or_else(|| (format!("{}: line is well-formed UTF-8", what), format!("{:02x?}", ev.bytes)))?.to_string();
+        if ev.cursor > text.chars().count() {
+            return Err((format!("{}: cursor within the line", what), format!("cursor {} on {:?}", ev.cursor, text)));
+        }
+        m.set_with_cursor(&text, ev.cursor);
+        Ok(())
+    };
+    let mut m = RefEditor::new(cfg.cmd_buf);
+    seat(s, &mut m, "after the failure")?;
+    if outage > 0 {
+        let now = st.borrow().calls;
+        st.borrow_mut().fault = Some(Fault { call: now, permanent: true, outage: 0 });
+    }
+    let mut dec = RefDecoder::new();
+    for (bi, &b) in bytes.iter().enumerate() {
+        let down = bi < outage;
+        if bi == outage && outage > 0 {
+            st.borrow_mut().repair();
+        }
+        let what = format!("after the failure, suffix byte #{} ({:#04x}) with the sink {}", bi, b, if down { "still down" } else { "working" });
+        let key = dec.accept(b);
+        let pre = s.editor();
         let pre_line = m.string();
         let calls0 = s.calls();
-        for b in op.encode(cfg, s.last_byte) {
-            s.byte(b).map_err(|e| (format!("{}: Ok", what), format!("{:?}", e)))?;
+        let r0 = st.borrow().raised.len();
+        let res = s.byte(b);
+        let raised: Vec<usize> = st.borrow().raised[r0..].to_vec();
+        match res {
+            Ok(()) => {
+                if !raised.is_empty() {
+                    return Err((format!("{}: the call returns the error raised by the sink (calls {:?})", what, raised), "Ok (error swallowed)".into()));
+                }
+            }
+            Err(e) => {
+                if !down {
+                    return Err((format!("{}: Ok", what), format!("{:?}", e)));
+                }
+                if !raised.contains(&e.0) {
+                    return Err((format!("{}: Err carries an error raised during this call ({:?})", what, raised), format!("{:?}", e)));
+                }
+            }
         }
         let new_calls = s.proc_.log[calls0..].to_vec();
-        match op {
-            Op::Char(c) => {
-                m.insert(*c);
+        let ev = s.editor();
+        let Some(key) = key else {
+            // part of a longer encoding: later input is decoded normally, so nothing happens yet
+            if ev != pre || !new_calls.is_empty() {
+                return Err((format!("{}: the byte only starts or continues a key: no change, no dispatch", what), format!("line {:?} -> {:?}, {} invocation(s)", lossy(&pre.bytes), lossy(&ev.bytes), new_calls.len())));
             }
-            Op::Backspace => {
+            continue;
+        };
+        if !matches!(key, Key::Enter) && !new_calls.is_empty() {
+            return Err((format!("{}: only Enter invokes the handler", what), format!("{:?}", new_calls)));
+        }
+        let recall_ok = |ev: &EditorView, typed: &[Vec<u8>]| ev.bytes.is_empty() || ev.bytes == pre_line.as_bytes() || typed.iter().any(|l| *l == ev.bytes);
+        match key {
+            Key::Char(c) => {
+                m.insert(c);
+            }
+            Key::Backspace => {
                 m.backspace();
             }
-            Op::Left => {
+            Key::Left => {
                 m.left();
             }
-            Op::Right => {
+            Key::Right => {
                 m.right();
             }
-            Op::Enter => {
-                check_dispatch(&expected_dispatch(&pre_line, true), &new_calls, &what, &pre_line)?;
+            Key::Enter => {
+                if down {
+                    // the handler may or may not have been reached before the output failed; if it was, then with this line
+                    if new_calls.len() > 1 {
+                        return Err((format!("{}: at most one invocation", what), format!("{:?}", new_calls)));
+                    }
+                    if !new_calls.is_empty() {
+                        check_dispatch(&expected_dispatch(&pre_line, true), &new_calls, &what, &pre_line)?;
+                    }
+                } else {
+                    check_dispatch(&expected_dispatch(&pre_line, true), &new_calls, &what, &pre_line)?;
+                }
                 typed_lines.push(pre_line.as_bytes().to_vec());
                 m.clear();
             }
-            Op::Up | Op::Down => {
+            Key::Up | Key::Down => {
                 // recall may show any line the user submitted so far, the line as it was, or nothing - never other text
-                let ev = s.editor();
-                let ok = ev.bytes.is_empty() || ev.bytes == pre_line.as_bytes() || typed_lines.iter().any(|l| *l == ev.bytes);
-                if !ok {
+                if !recall_ok(&ev, &typed_lines) {
                     return Err((
                         format!("{}: recall shows a line the user submitted ({:?}), the line as it was, or nothing", what, typed_lines.iter().map(|l| lossy(l)).collect::<Vec<_>>()),
                         format!("{:?}", lossy(&ev.bytes)),
                     ));
                 }
-                match ev.text() {
-                    Some(t) if ev.cursor <= t.chars().count() => m.set_with_cursor(t, ev.cursor),
-                    _ => return Err((format!("{}: recalled line is well-formed with the cursor inside it", what), format!("{:02x?} cursor {}", ev.bytes, ev.cursor))),
-                }
+                seat(s, &mut m, &what)?;
             }
-            _ => {}
+            Key::Tab => {
+                seat(s, &mut m, &what)?;
+            }
         }
-        if !matches!(op, Op::Enter) && !new_calls.is_empty() {
-            return Err((format!("{}: only Enter invokes the handler", what), format!("{:?}", new_calls)));
-        }
-        let ev = s.editor();
-        if ev.bytes != m.string().as_bytes() || ev.cursor != m.cursor {
+        if down {
+            // the line is as it was, as the key would have left it, or cleared
+            let as_key = ev.bytes == m.string().as_bytes() && ev.cursor == m.cursor;
+            let as_before = ev == pre;
+            let cleared = ev.bytes.is_empty() && ev.cursor == 0;
+            if !(as_key || as_before || cleared) {
+                return Err((
+                    format!("{}: the line is as before ({:?} cursor {}), as the key would have left it ({:?} cursor {}), or empty", what, lossy(&pre.bytes), pre.cursor, m.string(), m.cursor),
+                    format!("{:?} cursor {}", lossy(&ev.bytes), ev.cursor),
+                ));
+            }
+            seat(s, &mut m, &what)?;
+        } else if ev.bytes != m.string().as_bytes() || ev.cursor != m.cursor {
             return Err((format!("{}: line {:?} cursor {}", what, m.string(), m.cursor), format!("line {:?} cursor {}", lossy(&ev.bytes), ev.cursor)));
         }
     }
@@ -429,7 +498,7 @@ fn fault_run<S: CmdSet>(cfg: &Config, ops: &[Op], steps: &[Step], clean: &Clean,
                     }
                 }
                 let typed: Vec<Vec<u8>> = clean.submitted[..=si].iter().flatten().cloned().collect();
-                run_suffix(&mut s, cfg, suffix, &typed).map_err(|(e, o)| (format!("{} — {}", what, e), o))?;
+                run_suffix(&mut s, cfg, suffix, &typed, fault.outage as usize, &st).map_err(|(e, o)| (format!("{} — {}", what, e), o))?;
                 return Ok(Some(si));
             }
         }
@@ -489,22 +558,23 @@ fn run_shard(ctx: &ShardCtx) {
         let n = match vmodel::engine::guarded(|| total_calls(&case)) {
             Ok(Ok(n)) => n,
             Ok(Err((e, o))) => {
-                ctx.fail(Failure::new("fault-corpus", fault_json(&case, Fault { call: usize::MAX, permanent: false }, &[]), e, o));
+                ctx.fail(Failure::new("fault-corpus", fault_json(&case, Fault { call: usize::MAX, permanent: false, outage: 0 }, &[]), e, o));
                 break;
             }
             Err(p) => {
-                ctx.fail(Failure::new("fault-corpus", fault_json(&case, Fault { call: usize::MAX, permanent: false }, &[]), "no panic in the clean run", p));
+                ctx.fail(Failure::new("fault-corpus", fault_json(&case, Fault { call: usize::MAX, permanent: false, outage: 0 }, &[]), "no panic in the clean run", p));
                 break;
             }
         };
         for k in 0..n {
-            for permanent in [false, true] {
+            // once; until the failing call has returned; and, further, while 1-3 more input bytes arrive
+            for (permanent, outage) in [(false, 0u8), (true, 0), (true, 1), (true, 2), (true, 3)] {
                 for (xi, suffix) in sfx.iter().enumerate() {
                     idx += 1;
                     if !ctx.mine(idx) {
                         continue;
                     }
-                    let fault = Fault { call: k, permanent };
+                    let fault = Fault { call: k, permanent, outage };
                     ctx.count_eval();
                     if ctx.trace_file.is_some() {
                         ctx.trace(&json!({"check": "fault-corpus", "case": fault_json(&case, fault, suffix)}));
@@ -513,8 +583,8 @@ fn run_shard(ctx: &ShardCtx) {
                         Ok(Ok((nt, _))) => {
                             if nt {
                                 ctx.class("corpus:fault inside heavy output");
-                                ctx.nontrivial(fingerprint(&("corpus", sci, k, permanent, xi)), || {
-                                    json!({"scenario": sc.text, "set": sc.set, "enter_style": es, "fault_call": k, "permanent": permanent, "suffix": xi})
+                                ctx.nontrivial(fingerprint(&("corpus", sci, k, permanent, outage, xi)), || {
+                                    json!({"scenario": sc.text, "set": sc.set, "enter_style": es, "fault_call": k, "permanent": permanent, "outage_bytes": outage, "suffix": xi})
                                 });
                             }
                         }
@@ -554,32 +624,32 @@ fn run_shard(ctx: &ShardCtx) {
     let strat = (
         case_strategy(opts, &["raw", "enum", "group"]),
         any::<u16>(),
-        any::<bool>(),
+        (any::<bool>(), 0u8..5),
         proptest::collection::vec(suffix_op, 0..6),
     );
     ctx.run_prop(
         "fault-random",
         ctx.tier.pick(2_000_000, 12_000_000),
         strat,
-        |(c, k, p, sfx)| {
+        |(c, k, (p, og), sfx)| {
             let mut suffix = sfx.clone();
             suffix.push(Op::Enter);
             let n = total_calls(c).unwrap_or(1).max(1);
-            fault_json(c, Fault { call: (*k as usize * n) >> 16, permanent: *p }, &suffix)
+            fault_json(c, Fault { call: (*k as usize * n) >> 16, permanent: *p, outage: if *p { *og } else { 0 } }, &suffix)
         },
-        |(c, k, p, sfx)| {
+        |(c, k, (p, og), sfx)| {
             let mut suffix = sfx.clone();
             suffix.push(Op::Enter);
             let n = match total_calls(c) {
                 Ok(n) => n.max(1),
                 Err((e, o)) => return Err(Failure::new("fault-random", Value::Null, e, o)),
             };
-            let fault = Fault { call: (*k as usize * n) >> 16, permanent: *p };
+            let fault = Fault { call: (*k as usize * n) >> 16, permanent: *p, outage: if *p { *og } else { 0 } };
             match dispatch_set(c, fault, &suffix) {
                 Ok((nt, _)) => {
                     if nt {
                         ctx.class("random:fault inside heavy output");
-                        ctx.nontrivial(fingerprint(&(&c.cfg, &c.ops, fault.call, fault.permanent)), || fault_json(c, fault, &suffix));
+                        ctx.nontrivial(fingerprint(&(&c.cfg, &c.ops, fault.call, fault.permanent, fault.outage)), || fault_json(c, fault, &suffix));
                     }
                     Ok(())
                 }
